@@ -124,9 +124,12 @@ def writeDiv (c : Client) (d : Device) (o : Outcome) : Client × Device × StepO
       ({ c with divResync := false, divNow := c.divNew, copyDiv := c.divNew }, d', { sent := [f], time := t })
     else ({ c with divResync := true }, d', { sent := [f], time := t })
 
-/-- `channels_write`: divider request (only if the device advertises divider support), then enable -/
+/-- `channels_write`: nothing for a device without channels (`chmax == 0`, F18: the request builders cannot
+    express an empty vector); otherwise the divider request (only if the device advertises divider support),
+    then the enable request -/
 def channelsWrite (c : Client) (d : Device) (oDiv oEn : Outcome) : Client × Device × StepOut :=
-  if c.divSupported then
+  if c.n = 0 then (c, d, {})
+  else if c.divSupported then
     let (c1, d1, s1) := writeDiv c d oDiv
     match s1.err with
     | some _ => (c1, d1, s1)
